@@ -724,7 +724,7 @@ class addspsp_base(ThumbInstruction):
     imm7 = Operand("imm7", int)
 
     def encode(self):
-        assert self.imm7 < 512
+        assert 0 <= self.imm7 < 512
         assert self.imm7 % 4 == 0
         return u16((self.opcode << 7) | self.imm7 >> 2)
 
